@@ -199,7 +199,73 @@ def signalled_play(binpath, signame):
         shutil.rmtree(tmp, ignore_errors=True)
 
 
+# --upload-url with a stand-in `scp` first on PATH (no network here): a failed
+# upload, or an unsupported scheme, is a documented cause of a non-zero status,
+# also when the play itself went well.
+UPLOAD_CFG = """role r
+  :ok true
+end
+cast
+  x plays r
+end
+script
+  tempo 50ms
+  scene a entails for x: ok
+  storyline a
+end
+"""
+UPLOADS = {
+    "upload-succeeds": ("scp://backup.example.com/plays", False, False),
+    "upload-fails": ("scp://backup.example.com/plays", True, True),
+    "upload-unsupported-scheme": ("ftp://backup.example.com/plays", False, True),
+}
+
+
+def upload_play(binpath, name):
+    url, fail, expected = UPLOADS[name]
+    tmp = tempfile.mkdtemp(prefix="shk-c03-up-")
+    try:
+        os.makedirs(os.path.join(tmp, "fakebin"))
+        fake = os.path.join(tmp, "fakebin", "scp")
+        with open(fake, "w") as f:
+            f.write("#!/bin/sh\nif [ -n \"$FAKE_SCP_FAIL\" ]; then echo 'ssh: connect to host: Connection refused' >&2; exit 255; fi\necho \"uploaded: $*\"\nexit 0\n")
+        os.chmod(fake, 0o755)
+        with open(os.path.join(tmp, "play.cfg"), "w") as f:
+            f.write(UPLOAD_CFG)
+        env = dict(os.environ, SHELL="/bin/bash", PATH=os.path.join(tmp, "fakebin") + ":" + os.environ.get("PATH", ""))
+        if fail:
+            env["FAKE_SCP_FAIL"] = "1"
+        t0 = time.time()
+        p = subprocess.run([binpath, "-o", "out", "--disable-plots", "-q", "--upload-url", url, "play.cfg"], cwd=tmp, env=env,
+                           stdout=subprocess.PIPE, stderr=subprocess.STDOUT, timeout=120, text=True, errors="replace")
+        return {"name": name, "early": False, "exit": p.returncode, "expected_nonzero": expected, "foul_flag": None,
+                "wall_s": round(time.time() - t0, 2), "output_tail": p.stdout[-1500:], "config": UPLOAD_CFG,
+                "args": "--upload-url " + url + (" (the stand-in scp fails)" if fail else "")}
+    finally:
+        shutil.rmtree(tmp, ignore_errors=True)
+
+
+# -r clauses are read after the configuration's own interpretation sections,
+# in command-line order: the last one for a pair wins, also when it repeats an
+# earlier one.
+EXTRA_R = {
+    "r-ignore-foul-ignore": (["ignore al disappointment", "foul upon al disappointment", "ignore al disappointment"], False),
+    "r-foul-ignore-foul": (["foul upon al disappointment", "ignore al disappointment", "foul upon al disappointment"], True),
+    "r-shorthand-foul-shorthand": (["ignore disappointment", "foul upon al disappointment", "ignore disappointment"], False),
+    "r-ignore-only": (["ignore al disappointment"], False),
+    # al is disappointed by the sample and, after the reset, satisfied by the end of the play
+    "r-satisfaction-foul-ignore-foul": (["ignore al disappointment", "foul upon al satisfaction", "ignore al satisfaction", "foul upon al satisfaction"], True),
+    "r-satisfaction-ignore-foul-ignore": (["ignore al disappointment", "ignore al satisfaction", "foul upon al satisfaction", "ignore al satisfaction"], False),
+}
+
+
 def run_play(binpath, name, early, keepdir=None):
+    if name in EXTRA_R:
+        d = dict(cleanup="true", spot="echo s=7; sleep 30", b="ok", aud="  al expects always: [x s] < 5", interp="")
+        args = []
+        for r in EXTRA_R[name][0]:
+            args += ["-r", r]
+        return _run(binpath, name, early, BASE % d, EXTRA_R[name][1], extra_args=args)
     if name in ZERO:
         return _run(binpath, name, early, ZERO[name][0], ZERO[name][1])
     if name in PLAIN:
@@ -214,7 +280,7 @@ def run_play(binpath, name, early, keepdir=None):
     return _run(binpath, name, early, BASE % d, expected)
 
 
-def _run(binpath, name, early, text, expected):
+def _run(binpath, name, early, text, expected, extra_args=()):
     tmp = tempfile.mkdtemp(prefix="shk-c03-")
     try:
         cfg = os.path.join(tmp, "play.cfg")
@@ -223,6 +289,7 @@ def _run(binpath, name, early, text, expected):
         cmd = [binpath, "-o", "out", "--disable-plots", "-q"]
         if early:
             cmd.append("-S")
+        cmd += list(extra_args)
         cmd.append("play.cfg")
         t0 = time.time()
         try:
@@ -264,11 +331,14 @@ def run(tier, seed):
     # ---- end-to-end plays: exit status and Foul flag per single cause, with and without -S
     jobs = [(n, e) for n in E2E for e in (False, True)]
     jobs += [(n, e) for n in PLAIN for e in (False, True)]
+    jobs += [(n, e) for n in EXTRA_R for e in (False, True)]
     jobs += [(n, e) for n in ZERO for e in (False, True) for _ in range(ZERO_REPEATS[tier])]
     with concurrent.futures.ThreadPoolExecutor(max_workers=12) as ex:
         sig_futures = [ex.submit(signalled_play, bins["shakespeare"], sn) for sn in ("SIGTERM", "SIGHUP", "SIGINT")]
+        up_futures = [ex.submit(upload_play, bins["shakespeare"], n) for n in UPLOADS]
         plays = list(ex.map(lambda a: run_play(bins["shakespeare"], a[0], a[1]), jobs))
         sig_plays = [f.result() for f in sig_futures]
+        plays += [f.result() for f in up_futures]
 
     # ---- in-process: interpretation / tallies / verdict / -S through the real audition + collector
     r = audcommon.run_harness(res, bins["c03"], tier, seed)
